@@ -243,6 +243,10 @@ def run(ctx):
                   "nrKilled accumulates only kill results", "nrKilled receives " + rhs[:60])
     for w in local_writes(tkc, "nrKilled"):
         rhs = Xc0(write_rhs(tkc, w))
+        if rhs == "0":
+            # a reset is harmless only before anything was signalled
+            fk0 = Flow(P, tkc, events={i_: [("set", "sink")] for i_ in tkc.calls("getAndTryToKillPids", "Fs::writeKillAt")}, cg=ctx.cg)
+            rhs = "0" if fk0.may(w, "sink") else "1"
         ok = re.match(r"^this->getAndTryToKillPids\(param:target\)$", rhs) or rhs == "1" or \
             rhs == "Oomd::Fs::readPidsCurrentAt(param:target.fd()).value()"
         ctx.check(bool(ok), "accumulate-only-kill-results:tryToKillCgroup", "value-shape", tkc.loc(w),
@@ -258,7 +262,7 @@ def run(ctx):
         return (("maybeNrKilled", True) in g) and any(
             p is False and k in ("(*maybeNrKilled == 0)", "(0 == *maybeNrKilled)") for k, p in g)
     init, v = local_init(tlk, "nrKilled")
-    ctx.check(v is not None and re.match(r"^\(maybeNrKilled(\.operator bool\(\))? \? \*maybeNrKilled : 0\)$", tlk.text(init)) is not None,
+    ctx.check(v is not None and re.match(r"^\(maybeNrKilled(\.operator bool\(\)|\.has_value\(\))? \? (\*maybeNrKilled|maybeNrKilled\.value\(\)) : 0\)$", tlk.text(init)) is not None,
               "nrKilled-from-result",
               "value-shape", tlk.loc(), "nrKilled is the kill result (0 on error)", "nrKilled is " + (tlk.text(init) if v else "?"))
     stats = [i for i in tlk.calls("Oomd::incrementStat") if "kKillsKey" in tlk.text(tlk.nodes[i]["args"][0])]
